@@ -273,10 +273,13 @@ func (c *Conn) OpenUpstream(ctx context.Context, sessionID string, opts ...Upstr
 	var resp *message.UpstreamOpenResponse
 	var epoch uint64
 	err := c.send(ctx, func(ctx context.Context) error {
+		// take the current wire connection under the lock, but do not hold the lock while waiting for the
+		// broker: other calls (and Close) must not queue behind this one beyond their own bounds
 		c.wireConnMu.Lock()
-		defer c.wireConnMu.Unlock()
+		wireConn := c.wireConn
 		epoch = c.state.Epoch()
-		r, err := c.wireConn.SendUpstreamOpenRequest(ctx, &message.UpstreamOpenRequest{
+		c.wireConnMu.Unlock()
+		r, err := wireConn.SendUpstreamOpenRequest(ctx, &message.UpstreamOpenRequest{
 			SessionID:      upconf.SessionID,
 			AckInterval:    *upconf.AckInterval,
 			ExpiryInterval: upconf.ExpiryInterval,
@@ -583,8 +586,9 @@ func (c *Conn) SendMetadata(ctx context.Context, meta message.SendableMetadata, 
 			},
 		}
 		c.wireConnMu.Lock()
-		defer c.wireConnMu.Unlock()
-		resp, err := c.wireConn.SendUpstreamMetadata(ctx, upmeta)
+		wireConn := c.wireConn
+		c.wireConnMu.Unlock()
+		resp, err := wireConn.SendUpstreamMetadata(ctx, upmeta)
 		if err != nil {
 			return err
 		}
